@@ -81,6 +81,10 @@ def shape_of(r):
         return v
     if r[0] == "call" and "from_residual" in r[1]:
         return "Err"
+    if r[0] == "call" and isinstance(r[1], str) and r[1] in ("std::result::Result::map", "std::result::Result::map_err") and r[2]:
+        # `r.map(f)` / `r.map_err(f)` keep the variant of `r`: Ok stays Ok, Err stays Err
+        inner = shape_of(r[2][0])
+        return inner if inner in ("Ok", "Err") else "Ok|Err"
     if r[0] == "phi":
         return "|".join(sorted(set(shape_of(x) for x in r[1])))
     return "?"
